@@ -464,6 +464,12 @@ class Canon:
                     base = base.args[0]
                     continue
                 break
+            if base.op == "elem" and key.op == "const" and const_value(key) in (0, 1) and not isinstance(const_value(key), bool):
+                it_ = base.args[0]
+                # for k, v in D.items():  k is an element of D.keys(), v is D[k]
+                if it_.op == "mcall" and it_.args[0] == "items" and not it_.args[2] and not it_.args[3]:
+                    kk = mk("elem", mk("mcall", "keys", it_.args[1], (), ()))
+                    return kk if const_value(key) == 0 else self.canon(mk("sub", it_.args[1], kk))
             if base.op == "attr" and base.args[1] in ("iloc", "loc") and key.op == "tuple" and len(key.args[0]) == 2 and \
                     key.args[0][1].op == "slice" and all(x is NONE for x in key.args[0][1].args):
                 key = key.args[0][0]    # frame.iloc[i, :] is frame.iloc[i]
@@ -630,6 +636,9 @@ class Canon:
                     (cargs or ckw[0][0] == "size"):
                 # RandomState.rand(n), .random_sample(n), .random_sample(size=n), .random(size=n): n uniform draws from the same stream
                 return mk("mcall", "rand", recv, (cargs[0] if cargs else ckw[0][1],), ())
+            if m == "mask" and len(cargs) == 2 and not ckw:
+                # df.mask(cond, value) is the value of df after `df[cond] = value` (on a copy)
+                return self.canon(mk("upd", f.args[0], args[0], args[1]))
             name = METHOD_ALIASES.get(m)
             if name is None:
                 return mk("mcall", m, recv, tuple(cargs), ckw)
